@@ -28,7 +28,8 @@ using T = eventpp::EventDispatcher<int, void(uint32_t), Pol>;
 #elif TK == 2
 using T = eventpp::EventQueue<int, void(uint32_t), Pol>;
 #else
-using T = eventpp::HeterEventDispatcher<int, eventpp::HeterTuple<void(uint32_t), void(uint32_t, uint32_t)>, Pol>;
+// the listeners' prototype is NOT the first one listed, and nobody uses the first one unless the harness says so below
+using T = eventpp::HeterEventDispatcher<int, eventpp::HeterTuple<void(uint32_t, uint32_t), void(uint32_t)>, Pol>;
 #endif
 
 struct G {
@@ -101,6 +102,15 @@ extern "C" void harness()
 	int evVar = EV;            // the event is passed through a caller variable that is reused afterwards
 	auto hL0 = add_plain(g->t, &body_L0);
 	unsigned how = vf_choose(3);          // registered through append / prepend / insert-before-L0
+#if TK == 3
+	// heterogeneous target: insert-before also with an empty handle and with the handle of a listener of the OTHER prototype (the new listener
+	// then goes to the back of its own prototype's list, and the remover must still be able to detach it)
+	T::Handle hOtherProto;
+	unsigned beforeKind = how == 2 ? vf_choose(3) : 0;
+	if(beforeKind == 1) hL0 = T::Handle();
+	else if(beforeKind == 2) { hOtherProto = g->t->appendListener(EV, [](uint32_t, uint32_t) {}); hL0 = hOtherProto; }
+	const bool wAtBack = beforeKind != 0; (void)wAtBack;
+#endif
 #if TK != 0
 	g->t->appendListener(EV + 1, &body_other);      // a listener of ANOTHER event: never disturbed, never triggered by EV
 #endif
@@ -170,6 +180,9 @@ extern "C" void harness()
 	vf_assert(g_other == 1, 154);                     // the other event's listener is still attached
 #endif
 	hL0 = typename T::Handle();
+#if TK == 3
+	hOtherProto = T::Handle();
+#endif
 	delete g->t; delete g; g = nullptr;
 	vf_end();
 }
